@@ -1,12 +1,11 @@
-(* C04 -- the HPACK encoder emits valid blocks and the tables stay in sync: STATEMENTS (phase 1).
-   Phase 2 proves them and moves them, as Theorems closed by [exact], to Props/C04.v. Every
-   statement is a [Definition ... : Prop]; the Examples at the end are sanity tests by computation. *)
+(* C04: the vocabulary of the encoder statements. Definitions only.
+
+   A connection is a list of [enc_op]; [c04_run] executes the encoder model on it against the
+   decoder of the specification (Spec/Rfc7541.v) and checks every clause of C04 after every step. *)
 From H2V Require Import Base.Bytes Base.MachineInt Base.Result Gen.GenConsts Gen.GenStatic
      Impl.Huffman Impl.Hpack Spec.Rfc7541Huffman Spec.Rfc7541.
-Local Open Scope N_scope.
-
-(* same abstraction as in C03: [abs], [triple_of] live in Proofs/HpackDefs.v *)
 From H2V Require Export Proofs.HpackDefs.
+Local Open Scope N_scope.
 
 (* ---- what a connection does to an encoder ---- *)
 Inductive enc_op : Type :=
@@ -98,68 +97,3 @@ Definition enc_field_ok (p : field * bool) : bool :=
   bytes_ok (f_key (fst p)) && bytes_ok (f_value (fst p)) && (len (f_key (fst p)) + len (f_value (fst p)) + 32 <? 2 ^ 31).
 Definition enc_op_ok (op : enc_op) : bool :=
   match op with SetMax n => n <? 2 ^ 31 | Block fs => forallb enc_field_ok fs end.
-
-(* ---- the statement ---- *)
-Definition C04_encoder_in_sync : Prop :=
-  forall no_compress no_dynamic ops, forallb enc_op_ok ops = true -> c04_check no_compress no_dynamic ops = true.
-
-(* ---- the primitives the statement rests on ---- *)
-Definition C04_append_int_is_spec : Prop :=
-  forall bits pattern v, 1 <= bits <= 8 -> pattern < 256 -> pattern mod 2 ^ bits = 0 -> v < 2 ^ 64 ->
-    append_int [pattern] bits v = Ok (spec_enc_int bits pattern v).
-
-Definition C04_append_string_is_spec : Prop :=
-  forall dst s huff, bytes_ok s = true -> len s < 2 ^ 32 ->
-    append_string dst s huff = Ok (dst ++ spec_enc_str huff s).
-
-(* search finds what it says: an index whose entry has the field's name (and value on a full match) *)
-Definition C04_search_sound : Prop :=
-  forall st hf i full, search st hf = (i, full) -> 0 < i ->
-    exists n v, lookup (abs st) i = Some (n, v) /\ n = f_key hf /\ (full = true -> v = f_value hf).
-
-Definition C04_no_panic : Prop :=
-  forall st dst hf store, is_panic (append_header st dst hf store) = false.
-
-(* planned, for the server model (Impl/ServerInst.v): what AppendHeader appends does not depend on
-   what dst already holds *)
-Definition C04_append_header_prefix : Prop :=
-  forall st dst hf store x st',
-    append_header st dst hf store = Ok (dst ++ x, st') <-> append_header st [] hf store = Ok (x, st').
-
-(* ------------------------------------------------------------------ *)
-(* Sanity tests by computation *)
-
-Definition F (k v : bytes) : field := mkF k v false.
-Definition Fs (k v : bytes) : field := mkF k v true.
-Definition method : bytes := [58;109;101;116;104;111;100].
-Definition authz : bytes := [97;117;116;104;111;114;105;122;97;116;105;111;110].
-
-(* RFC C.3.1-like request, a repeat (dynamic full match), a sensitive field with a name index >= 16,
-   names that are empty / end in a zero octet, every flag combination *)
-Example C04_sanity_basic :
-  forallb (fun fl => c04_check (fst fl) (snd fl)
-     [ Block [(F method [71;69;84], true); (F [120] [121], true); (Fs authz [115], true); (F [120] [121], true)];
-       Block [(F [] [97], true); (F [97;0] [98], true); (F [48;48;48;48;48;48;48;48] [99], true); (F [] [], false)];
-       Block [(F [120] [121], false); (F [97;0] [98], true)] ])
-    [(false, false); (true, false); (false, true); (true, true)] = true.
-Proof. vm_compute. reflexivity. Qed.
-
-(* table size changes: lowered and raised between two blocks (both must be announced), lowered twice,
-   raised, set to 0, changed before the first block, changed after the last *)
-Example C04_sanity_size_changes :
-  c04_check false false
-     [ Block [(F [120] [121], true)]; SetMax 0; SetMax 4096; Block [(F [120] [121], true)];
-       SetMax 100; SetMax 50; Block [(F [122] [121], true)]; SetMax 65536; Block []; Block [(F [122] [121], true)];
-       SetMax 64; Block [(F [120] [121], true); (F [122] [121], true)]; SetMax 0 ] = true.
-Proof. vm_compute. reflexivity. Qed.
-
-(* regression: a value equal to the prefix maximum 2^bits-1 is the prefix and a zero octet
-   (RFC 7541 5.1). Before commit 9e71fce appendInt wrote the bare prefix: SetMaxTableSize(31) made the
-   next block start with the single octet 3f, a name index 15 on a 4-bit prefix came out as 0f. *)
-Example C04_sanity_prefix_max :
-  append_int [32] 5 31 = Ok [63; 0] /\ spec_enc_int 5 32 31 = [63; 0] /\
-  c04_check false false [SetMax 31; Block [(F [97] [98], false)]] = true /\
-  c04_check false false [Block [(F [97;99;99;101;112;116;45;99;104;97;114;115;101;116] [120], false);
-                                (Fs [97;99;99;101;112;116;45;99;104;97;114;115;101;116] [120], false)]] = true /\
-  c04_check true false [Block [(F [120] (repeat 97 127), false)]] = true.
-Proof. vm_compute. repeat split; reflexivity. Qed.
